@@ -147,7 +147,11 @@ type Kernel struct {
 	Externals int // times a task blocked outside the kernel's knowledge
 	// ExternalWait: how much virtual time the kernel lets pass, when nothing else can happen,
 	// for a task that is blocked outside its knowledge to come back (0: none).
-	ExternalWait       int64
+	ExternalWait int64
+	// ForeignTimers: goroutines of the program under test that are no tasks (crypto/tls's
+	// handshake interrupter that closes the connection when the context is done) may still act
+	// on the simulated network when every task is parked: the same wait applies then.
+	ForeignTimers      bool
 	extWaited, extStep int64
 	Contended          int // times a task was found parked on a held lock
 	MaxEnabled         int
@@ -453,7 +457,7 @@ func (k *Kernel) Run() Verdict {
 				if k.mainDone() {
 					return AllDone
 				}
-				if k.ExternalWait > 0 && k.extWaited < k.ExternalWait && k.hasExternal() {
+				if k.ExternalWait > 0 && k.extWaited < k.ExternalWait && (k.hasExternal() || k.ForeignTimers) {
 					// A task is blocked on something the kernel does not know. It may be a timer of
 					// the bubble (a context deadline): let virtual time pass, in growing steps, and
 					// look again. The task itself wakes at the exact instant of its timer; only the
